@@ -104,9 +104,15 @@ static const char *prop_of(const struct mlist *m, int is_d)
         snprintf(_k, sizeof _k, "%s/%s/%s/%s", prop_of(m, is_d), oracle, l_opname(g_run.opkind), g_cur_ctx); \
         sim_violation(_k, __VA_ARGS__); } while (0)
 
+/* removed elements are the caller's again: one in four is kept (its link members scribbled on) and goes back into a
+ * list later - the same object, the same address */
+static struct lelem *recycle[4]; static int nrecycle; static unsigned recycle_tick;
 static struct lelem *new_elem(int key)
 {
-    struct lelem *e = simheap_alloc(sizeof *e, TAG_ELEM);
+    struct lelem *e;
+    recycle_tick = recycle_tick * 1103515245u + 12345u;
+    if (nrecycle > 0 && (recycle_tick >> 16 & 1)) { e = recycle[--nrecycle]; PROBE("recycled_element_inserted"); }
+    else e = simheap_alloc(sizeof *e, TAG_ELEM);
     e->magic = MAGIC;
     e->id = next_id++;
     e->key = key;
@@ -116,6 +122,13 @@ static struct lelem *new_elem(int key)
 
 static void drop_elem(struct lelem *e)
 {
+    recycle_tick = recycle_tick * 1103515245u + 12345u;
+    if (nrecycle < 4 && (recycle_tick >> 16 & 3) == 0) {
+        memset(&e->dn, 0xA5, sizeof e->dn); memset(&e->dn2, 0xA5, sizeof e->dn2);
+        memset(&e->sn, 0xA5, sizeof e->sn); memset(&e->sn2, 0xA5, sizeof e->sn2);
+        recycle[nrecycle++] = e;
+        return;
+    }
     simheap_free(e);            /* poisons: any later touch by the library is visible */
 }
 
@@ -568,7 +581,7 @@ static void l_exec(const plan_t *p)
     keys = (int)p->cfg[CF_KEYS]; if (keys < 1) keys = 1;
     maxlen = (int)p->cfg[CF_MAXLEN]; if (maxlen < 1) maxlen = 8; if (maxlen > MAXLEN - 8) maxlen = MAXLEN - 8;
     clear_frees = (int)p->cfg[CF_CLEARFREES];
-    next_id = 0; maxreach = 0;
+    next_id = 0; maxreach = 0; nrecycle = 0; recycle_tick = (unsigned)p->cfg[CF_JUNK] * 2654435761u;
     reentrant = 0;
     if (p->cfg[CF_LONG] >> 8 & 1) {
         cstl_dlist_init(&auxlist, offsetof(struct lelem, dn));
@@ -977,6 +990,7 @@ static void l_exec(const plan_t *p)
         unsigned live = 0;
         for (i = 0; i < nd; i++) live += (unsigned)md[i].n;
         for (i = 0; i < ns; i++) live += (unsigned)ms[i].n;
+        live += (unsigned)nrecycle;
         if (simheap_live_count(TAG_ELEM) != live)
             sim_harness_bug("lists: element accounting broken (%u live, model %u)", simheap_live_count(TAG_ELEM), live);
         if (simheap_live_count(TAG_LIB) != 0)
